@@ -96,7 +96,7 @@ var BytesSliceFunc = function.New(&function.Spec{
 
 		end := offset + length
 
-		if end > len(*bufPtr) {
+		if length > len(*bufPtr)-offset {
 			return cty.NilVal, fmt.Errorf(
 				"offset %d + length %d is greater than total buffer length %d",
 				offset, length, len(*bufPtr),
